@@ -268,6 +268,7 @@ func init() {
 			{Scenario: "replay.history", Params: vx.P("depth", fmt.Sprint(b(3, 4)), "cross", "1"), Bound: 0, Weight: 7},
 			{Scenario: "replay.crosstransport", Weight: 2},
 			{Scenario: "replay.concurrent", Params: vx.P("threads", "3"), Bound: -1, Weight: 5},
+			{Scenario: "replay.concurrent", Params: vx.P("threads", "2", "crosscheck", "1"), Bound: 3, Weight: 5},
 			{Scenario: "replay.concurrent", Params: vx.P("threads", "2", "variant", "1"), Bound: -1, Weight: 5},
 			{Scenario: "replay.concurrent", Params: vx.P("threads", "2", "atcleanup", "1"), Bound: b(2, 4), Weight: 5},
 		}
